@@ -8,9 +8,10 @@ partial def conv : Json → JV
   | .null => .null
   | .bool b => .bool b
   | .num n =>
-    -- a number beyond float64 makes `json.Unmarshal` fail wherever it is decoded into `any`; the YAML fallback of
-    -- `unmarshal` then reads it as a string (observed: `$ref: 1e400` becomes a reference text)
-    if (toString n.mantissa.natAbs).length > n.exponent + 309 then .str "<number beyond float64>"
+    -- a number beyond float64 makes `json.Unmarshal` fail; the YAML fallback of `unmarshal` then reads it as a
+    -- string where a typed member is decoded (observed: `$ref: 1e400` of a wrapper becomes a reference text) and
+    -- leaves it a number inside extension members (`JV.refText?`, `JV.plain`)
+    if (toString n.mantissa.natAbs).length > n.exponent + 309 then .num "inf"
     else .num (if n.mantissa == 0 then "0" else "nz")
   | .str s => .str s
   | .arr a => .arr (a.toList.map conv)
